@@ -1,0 +1,272 @@
+//go:build verif
+
+package storagePruningManager
+
+// Contracts for govc (/verif), property C09. Comment-only file: no executable code, not part of the default build.
+//
+// GHOST MODEL of the three collaborators (interfaces; their state is not part of the Go heap the verifier sees):
+//   eviction waiting list e   elist(e, key)[0]  : the hash set recorded under root key `key` (nil = no entry)
+//   trie storage t            tnode(t, h)[0]    : 1 = the node with hash h is retrievable from the trie database
+//                             tblocked(t)[0]    : > 0 = pruning is blocked (snapshot / checkpoint in progress)
+//   pruning buffer b          bufLen(b)[0]      : number of buffered requests
+// The element types of the cell families differ (ModifiedHashes / int / int8 / int32), so `allelems(..)` of one family
+// leaves the others alone. The interface contracts below are ASSUMPTIONS about the collaborators; those of the waiting list
+// are the clauses proved of the implementation in evictionWaitingList/contracts_verif.go (in-memory entries), those of the
+// buffer are proved in pruningBuffer/contracts_verif.go.
+//
+// `anyRoot()` / `anyHash()` are uninterpreted constants: a clause mentioning them holds for EVERY root key / node hash.
+
+/*@
+spec fn anyRoot() string
+spec fn anyHash() string
+
+spec fn elist(e state.DBRemoveCacher, k string) []data.ModifiedHashes
+  axiom elKey(base(elist(e, k))) == k
+  axiom elOwner(base(elist(e, k))) == eid(e)
+spec fn elKey(r ref) string
+spec fn elOwner(r ref) int
+spec fn eid(e state.DBRemoveCacher) int
+
+spec fn tnode(t data.StorageManager, h string) []int
+  axiom tnKey(base(tnode(t, h))) == h
+  axiom tnOwner(base(tnode(t, h))) == tid(t)
+spec fn tnKey(r ref) string
+spec fn tnOwner(r ref) int
+spec fn tid(t data.StorageManager) int
+spec fn tblocked(t data.StorageManager) []int8
+spec fn bufLen(b state.AtomicBuffer) []int32
+
+// the entry `key` of e lists node hash h
+spec fn listed(e state.DBRemoveCacher, key string, h string) bool = !isNil(elist(e, key)[0]) && has(elist(e, key)[0], h)
+// an entry `key` shields its hashes from the pruning of a root with identifier id, unless both are OldRoot (0) lists
+spec fn shieldsFrom(key string, id int) bool = len(key) > 0 && !(key[len(key)-1] == 0 && id == 0)
+// the identifier byte of a root key
+spec fn idOf(key string) int = key[len(key)-1]
+
+// ---- eviction waiting list (state.DBRemoveCacher) ---------------------------------------------------------------------
+func (e state.DBRemoveCacher) Put(key []byte, hashes data.ModifiedHashes) (err error)
+  ensures recorded: err == nil ==> elist(e, str(key))[0] == hashes
+  ensures failure-changes-nothing: err != nil ==> elist(e, str(key))[0] == old(elist(e, str(key))[0])
+  assigns elems(elist(e, str(key)))
+
+func (e state.DBRemoveCacher) Evict(key []byte) (hashes data.ModifiedHashes, err error)
+  ensures returned-list-is-the-recorded-one: err == nil ==> hashes == old(elist(e, str(key))[0])
+  ensures entry-removed: isNil(elist(e, str(key))[0])
+  ensures nil-map-is-empty: isNil(hashes) ==> !has(hashes, anyHash())          // fact about Go's nil maps the engine does not know
+  assigns elems(elist(e, str(key)))
+
+func (e state.DBRemoveCacher) ShouldKeepHash(hash string, identifier data.TriePruningIdentifier) (keep bool, err error)
+  ensures no-shielding-entry-left: err == nil && !keep ==> !(listed(e, anyRoot(), hash) && shieldsFrom(anyRoot(), identifier))
+  ensures def-kept-by-the-waiting-list: keep ==> keptByWaitingList(e, hash, identifier)       // names the answer "keep" (for the liveness clause of removeFromDb)
+  assigns nothing
+spec fn keptByWaitingList(e state.DBRemoveCacher, h string, id int) bool
+
+func (e state.DBRemoveCacher) Close() (err error)
+  assigns nothing
+
+// ---- trie storage manager (data.StorageManager) -------------------------------------------------------------------------
+func (t data.StorageManager) IsPruningBlocked() (r bool)
+  ensures r <==> tblocked(t)[0] > 0
+  assigns nothing
+
+func (t data.StorageManager) Remove(hash []byte) (err error)
+  ensures removed: err == nil ==> tnode(t, str(hash))[0] == 0
+  assigns elems(tnode(t, str(hash)))
+
+// ---- pruning buffer (state.AtomicBuffer) ----------------------------------------------------------------------------------
+func (b state.AtomicBuffer) Add(rootHash []byte)
+  ensures appended-or-dropped-when-full: bufLen(b)[0] == old(bufLen(b)[0]) + 1 || bufLen(b)[0] == old(bufLen(b)[0])
+  assigns elems(bufLen(b))
+
+func (b state.AtomicBuffer) RemoveAll() (r [][]byte)
+  ensures lossless: len(r) == old(bufLen(b)[0])
+  ensures emptied: bufLen(b)[0] == 0
+  ensures fresh(r)
+  assigns elems(bufLen(b))
+
+func (b state.AtomicBuffer) Len() (n int)
+  ensures n == bufLen(b)[0]
+  assigns nothing
+
+// ---- logging helpers ------------------------------------------------------------------------------------------------------
+func logMapWithTrace(message string, paramName string, hashes data.ModifiedHashes)
+  trusted
+  assigns nothing
+
+extern func hex.EncodeToString(src []byte) (r string)
+  assigns nothing
+
+// ---- removeDuplicatedKeys: hashes that the commit both removed and (re-)introduced are neither old nor new -------------------
+func removeDuplicatedKeys(oldHashes map[string]struct{}, newHashes map[string]struct{})
+  requires distinct-sets: oldHashes != newHashes
+  ensures  disjoint: !(has(oldHashes, anyHash()) && has(newHashes, anyHash()))
+  ensures  old-minus-new: has(oldHashes, anyHash()) <==> old(has(oldHashes, anyHash()) && !has(newHashes, anyHash()))
+  ensures  new-minus-old: has(newHashes, anyHash()) <==> old(has(newHashes, anyHash()) && !has(oldHashes, anyHash()))
+  assigns  mapof(oldHashes), mapof(newHashes)
+
+loop 1
+  invariant old-shrinks: has(oldHashes, anyHash()) <==> old(has(oldHashes, anyHash())) && !(visited(anyHash()) && old(has(newHashes, anyHash())))
+  invariant new-shrinks: has(newHashes, anyHash()) <==> old(has(newHashes, anyHash())) && !(visited(anyHash()) && old(has(oldHashes, anyHash())))
+  invariant visited-were-old: visited(anyHash()) ==> old(has(oldHashes, anyHash()))
+
+// ---- removeFromDb: the deletion step -----------------------------------------------------------------------------------------
+// A node hash is deleted from the trie database only if the evicted root's OWN list names it, and not if any remaining entry
+// that shields (another root that still needs the node, e.g. a later root that re-introduced it) lists it.
+func (spm *storagePruningManager) removeFromDb(rootHash []byte, tsm data.StorageManager) (err error)
+  requires collaborators-set: spm.dbEvictionWaitingList != nil && tsm != nil
+  ensures  only-hashes-of-the-evicted-list-removed: !old(listed(spm.dbEvictionWaitingList, str(rootHash), anyHash())) ==> tnode(tsm, anyHash())[0] == old(tnode(tsm, anyHash())[0])
+  ensures  shielded-hashes-kept: len(rootHash) > 0 && listed(spm.dbEvictionWaitingList, anyRoot(), anyHash()) && shieldsFrom(anyRoot(), idOf(old(str(rootHash)))) ==> tnode(tsm, anyHash())[0] == old(tnode(tsm, anyHash())[0])
+  ensures  entry-evicted: isNil(elist(spm.dbEvictionWaitingList, old(str(rootHash)))[0])
+  ensures  other-entries-kept: anyRoot() != old(str(rootHash)) ==> elist(spm.dbEvictionWaitingList, anyRoot())[0] == old(elist(spm.dbEvictionWaitingList, anyRoot())[0])
+  ensures  lists-only-shrink: listed(spm.dbEvictionWaitingList, anyRoot(), anyHash()) ==> old(listed(spm.dbEvictionWaitingList, anyRoot(), anyHash()))
+  ensures  empty-key-refused: len(rootHash) == 0 ==> err != nil && tnode(tsm, anyHash())[0] == old(tnode(tsm, anyHash())[0])
+  ensures  unshielded-hashes-of-the-list-are-removed: err == nil && old(listed(spm.dbEvictionWaitingList, str(rootHash), anyHash())) ==> tnode(tsm, anyHash())[0] == 0 || keptByWaitingList(spm.dbEvictionWaitingList, anyHash(), idOf(old(str(rootHash))))
+  assigns  elems(elist(spm.dbEvictionWaitingList, str(rootHash))), allelems(tnode(tsm, ""))
+
+loop 1
+  invariant visited-hashes-removed-or-kept: visited(anyHash()) ==> tnode(tsm, anyHash())[0] == 0 || keptByWaitingList(spm.dbEvictionWaitingList, anyHash(), idOf(old(str(rootHash))))
+  invariant collaborators-kept: spm.dbEvictionWaitingList == old(spm.dbEvictionWaitingList) && str(rootHash) == old(str(rootHash)) && len(rootHash) > 0
+  invariant list-in-hand: hashes == old(elist(spm.dbEvictionWaitingList, str(rootHash))[0]) && (has(hashes, anyHash()) <==> old(has(elist(spm.dbEvictionWaitingList, str(rootHash))[0], anyHash())))
+  invariant entry-evicted: isNil(elist(spm.dbEvictionWaitingList, old(str(rootHash)))[0])
+  invariant other-entries-kept: anyRoot() != old(str(rootHash)) ==> elist(spm.dbEvictionWaitingList, anyRoot())[0] == old(elist(spm.dbEvictionWaitingList, anyRoot())[0]) && (has(elist(spm.dbEvictionWaitingList, anyRoot())[0], anyHash()) <==> old(has(elist(spm.dbEvictionWaitingList, anyRoot())[0], anyHash())))
+  invariant only-hashes-of-the-evicted-list-removed: !old(listed(spm.dbEvictionWaitingList, str(rootHash), anyHash())) ==> tnode(tsm, anyHash())[0] == old(tnode(tsm, anyHash())[0])
+  invariant shielded-hashes-kept: listed(spm.dbEvictionWaitingList, anyRoot(), anyHash()) && shieldsFrom(anyRoot(), idOf(old(str(rootHash)))) ==> tnode(tsm, anyHash())[0] == old(tnode(tsm, anyHash())[0])
+@*/
+
+/*@
+// rootKey(r, id) = r ++ <id>: the key under which the list of root r with identifier id is recorded (total definition,
+// zero outside its length like every string value of the engine)
+spec fn rootKey(r string, id int) string
+  axiom len(rootKey(r, id)) == len(r) + 1
+  axiom rootKey(r, id)[len(r)] == id
+  axiom forall i :: 0 <= i && i < len(r) ==> rootKey(r, id)[i] == r[i]
+  axiom forall i :: len(r) >= 0 && (i < 0 || i > len(r)) ==> rootKey(r, id)[i] == 0        // (guard: the quantified r ranges over all Str terms)
+
+func (spm *storagePruningManager) prune(rootHash []byte, tsm data.StorageManager)
+  requires collaborators-set: spm.dbEvictionWaitingList != nil && tsm != nil
+  ensures  only-hashes-of-the-evicted-list-removed: !old(listed(spm.dbEvictionWaitingList, str(rootHash), anyHash())) ==> tnode(tsm, anyHash())[0] == old(tnode(tsm, anyHash())[0])
+  ensures  shielded-hashes-kept: len(rootHash) > 0 && listed(spm.dbEvictionWaitingList, anyRoot(), anyHash()) && shieldsFrom(anyRoot(), idOf(old(str(rootHash)))) ==> tnode(tsm, anyHash())[0] == old(tnode(tsm, anyHash())[0])
+  ensures  empty-key-removes-nothing: len(rootHash) == 0 ==> tnode(tsm, anyHash())[0] == old(tnode(tsm, anyHash())[0])
+  ensures  entry-evicted: isNil(elist(spm.dbEvictionWaitingList, old(str(rootHash)))[0])
+  ensures  other-entries-kept: anyRoot() != old(str(rootHash)) ==> elist(spm.dbEvictionWaitingList, anyRoot())[0] == old(elist(spm.dbEvictionWaitingList, anyRoot())[0])
+  ensures  lists-only-shrink: listed(spm.dbEvictionWaitingList, anyRoot(), anyHash()) ==> old(listed(spm.dbEvictionWaitingList, anyRoot(), anyHash()))
+  assigns  elems(elist(spm.dbEvictionWaitingList, str(rootHash))), allelems(tnode(tsm, ""))
+
+// cancelPrune forgets the list of a root without touching the trie database
+func (spm *storagePruningManager) cancelPrune(rootHash []byte)
+  requires collaborators-set: spm.dbEvictionWaitingList != nil
+  ensures  entry-evicted: isNil(elist(spm.dbEvictionWaitingList, old(str(rootHash)))[0])
+  ensures  other-entries-kept: anyRoot() != old(str(rootHash)) ==> elist(spm.dbEvictionWaitingList, anyRoot())[0] == old(elist(spm.dbEvictionWaitingList, anyRoot())[0])
+  ensures  lists-only-shrink: listed(spm.dbEvictionWaitingList, anyRoot(), anyHash()) ==> old(listed(spm.dbEvictionWaitingList, anyRoot(), anyHash()))
+  assigns  elems(elist(spm.dbEvictionWaitingList, str(rootHash)))
+@*/
+
+/*@
+// a NewRoot entry (identifier byte != 0) shields its hashes from the pruning of every root
+spec fn shieldsAlways(key string) bool = len(key) > 0 && key[len(key)-1] != 0
+
+// replay of the requests buffered while pruning was blocked (slice order = arrival order).
+// `survivor-shields`: a node hash listed by a NewRoot entry that is still present AFTERWARDS was not deleted, whatever was replayed.
+func (spm *storagePruningManager) resolveBufferedHashes(oldHashes [][]byte, tsm data.StorageManager)
+  requires collaborators-set: spm.dbEvictionWaitingList != nil && tsm != nil
+  ensures  survivor-shields: listed(spm.dbEvictionWaitingList, anyRoot(), anyHash()) && shieldsAlways(anyRoot()) ==> tnode(tsm, anyHash())[0] == old(tnode(tsm, anyHash())[0])
+  ensures  lists-only-shrink: listed(spm.dbEvictionWaitingList, anyRoot(), anyHash()) ==> old(listed(spm.dbEvictionWaitingList, anyRoot(), anyHash()))
+  ensures  empty-buffer-changes-nothing: len(oldHashes) == 0 ==> tnode(tsm, anyHash())[0] == old(tnode(tsm, anyHash())[0]) && elist(spm.dbEvictionWaitingList, anyRoot())[0] == old(elist(spm.dbEvictionWaitingList, anyRoot())[0])
+  ensures  empty-buffer-keeps-every-list: len(oldHashes) == 0 ==> (forall k string :: elist(spm.dbEvictionWaitingList, k)[0] == old(elist(spm.dbEvictionWaitingList, k)[0]))
+  assigns  allelems(elist(spm.dbEvictionWaitingList, "")), allelems(tnode(tsm, ""))
+
+loop 1
+  invariant index: -1 <= rangeindex && rangeindex < len(oldHashes)
+  invariant no-list-touched-yet: rangeindex == -1 ==> (forall k string :: elist(spm.dbEvictionWaitingList, k)[0] == old(elist(spm.dbEvictionWaitingList, k)[0]))
+  invariant collaborators-kept: spm.dbEvictionWaitingList == old(spm.dbEvictionWaitingList)
+  invariant survivor-shields: listed(spm.dbEvictionWaitingList, anyRoot(), anyHash()) && shieldsAlways(anyRoot()) ==> tnode(tsm, anyHash())[0] == old(tnode(tsm, anyHash())[0])
+  invariant lists-only-shrink: listed(spm.dbEvictionWaitingList, anyRoot(), anyHash()) ==> old(listed(spm.dbEvictionWaitingList, anyRoot(), anyHash()))
+  invariant nothing-yet: rangeindex == -1 ==> tnode(tsm, anyHash())[0] == old(tnode(tsm, anyHash())[0]) && elist(spm.dbEvictionWaitingList, anyRoot())[0] == old(elist(spm.dbEvictionWaitingList, anyRoot())[0])
+
+// CancelPrune (rollback of a block: the list of the abandoned root is forgotten, never anything deleted)
+func (spm *storagePruningManager) CancelPrune(rootHash []byte, identifier data.TriePruningIdentifier, tsm data.StorageManager)
+  requires collaborators-set: spm.dbEvictionWaitingList != nil && spm.pruningBuffer != nil && tsm != nil
+  ensures  deletes-no-node: tnode(tsm, anyHash())[0] == old(tnode(tsm, anyHash())[0])
+  ensures  cancelled-at-once-when-free: old(tblocked(tsm)[0]) <= 0 && old(bufLen(spm.pruningBuffer)[0]) == 0 ==> isNil(elist(spm.dbEvictionWaitingList, rootKey(old(str(rootHash)), identifier))[0]) && bufLen(spm.pruningBuffer)[0] == 0
+  ensures  other-lists-kept: anyRoot() != rootKey(old(str(rootHash)), identifier) ==> elist(spm.dbEvictionWaitingList, anyRoot())[0] == old(elist(spm.dbEvictionWaitingList, anyRoot())[0])
+  ensures  buffered-when-blocked-or-behind-others: old(tblocked(tsm)[0]) > 0 || old(bufLen(spm.pruningBuffer)[0]) != 0 ==> elist(spm.dbEvictionWaitingList, anyRoot())[0] == old(elist(spm.dbEvictionWaitingList, anyRoot())[0]) && (bufLen(spm.pruningBuffer)[0] == old(bufLen(spm.pruningBuffer)[0]) + 1 || bufLen(spm.pruningBuffer)[0] == old(bufLen(spm.pruningBuffer)[0]))
+  ensures  caller-bytes-kept: str(rootHash) == old(str(rootHash))
+  assigns  elems(rootHash), elems(elist(spm.dbEvictionWaitingList, rootKey(str(rootHash), identifier))), elems(bufLen(spm.pruningBuffer))
+
+// PruneTrie (finalisation: prune of the old root with OldRoot; rollback: prune of the new root with NewRoot)
+func (spm *storagePruningManager) PruneTrie(rootHash []byte, identifier data.TriePruningIdentifier, tsm data.StorageManager)
+  requires collaborators-set: spm.dbEvictionWaitingList != nil && spm.pruningBuffer != nil && tsm != nil
+  ensures  blocked-deletes-no-node: old(tblocked(tsm)[0]) > 0 ==> tnode(tsm, anyHash())[0] == old(tnode(tsm, anyHash())[0])
+  ensures  blocked-new-root-is-cancelled: old(tblocked(tsm)[0]) > 0 && identifier == 1 ==> isNil(elist(spm.dbEvictionWaitingList, rootKey(old(str(rootHash)), 1))[0]) && (anyRoot() != rootKey(old(str(rootHash)), 1) ==> elist(spm.dbEvictionWaitingList, anyRoot())[0] == old(elist(spm.dbEvictionWaitingList, anyRoot())[0])) && bufLen(spm.pruningBuffer)[0] == old(bufLen(spm.pruningBuffer)[0])
+  ensures  blocked-old-root-is-buffered: old(tblocked(tsm)[0]) > 0 && identifier != 1 ==> elist(spm.dbEvictionWaitingList, anyRoot())[0] == old(elist(spm.dbEvictionWaitingList, anyRoot())[0]) && (bufLen(spm.pruningBuffer)[0] == old(bufLen(spm.pruningBuffer)[0]) + 1 || bufLen(spm.pruningBuffer)[0] == old(bufLen(spm.pruningBuffer)[0]))
+  ensures  survivor-shields: listed(spm.dbEvictionWaitingList, anyRoot(), anyHash()) && shieldsAlways(anyRoot()) ==> tnode(tsm, anyHash())[0] == old(tnode(tsm, anyHash())[0])
+  ensures  lists-only-shrink: listed(spm.dbEvictionWaitingList, anyRoot(), anyHash()) ==> old(listed(spm.dbEvictionWaitingList, anyRoot(), anyHash()))
+  ensures  unblocked-evicts-and-drains: old(tblocked(tsm)[0]) <= 0 ==> isNil(elist(spm.dbEvictionWaitingList, rootKey(old(str(rootHash)), identifier))[0]) && bufLen(spm.pruningBuffer)[0] == 0
+  ensures  direct-prune-removes-only-own-list: old(tblocked(tsm)[0]) <= 0 && old(bufLen(spm.pruningBuffer)[0]) == 0 && !old(listed(spm.dbEvictionWaitingList, rootKey(str(rootHash), identifier), anyHash())) ==> tnode(tsm, anyHash())[0] == old(tnode(tsm, anyHash())[0])
+  ensures  direct-prune-keeps-shielded: old(tblocked(tsm)[0]) <= 0 && old(bufLen(spm.pruningBuffer)[0]) == 0 && listed(spm.dbEvictionWaitingList, anyRoot(), anyHash()) && shieldsFrom(anyRoot(), identifier) ==> tnode(tsm, anyHash())[0] == old(tnode(tsm, anyHash())[0])
+  ensures  direct-prune-keeps-other-lists: old(tblocked(tsm)[0]) <= 0 && old(bufLen(spm.pruningBuffer)[0]) == 0 && anyRoot() != rootKey(old(str(rootHash)), identifier) ==> elist(spm.dbEvictionWaitingList, anyRoot())[0] == old(elist(spm.dbEvictionWaitingList, anyRoot())[0])
+  ensures  caller-bytes-kept: str(rootHash) == old(str(rootHash))
+  assigns  elems(rootHash), allelems(elist(spm.dbEvictionWaitingList, "")), allelems(tnode(tsm, "")), elems(bufLen(spm.pruningBuffer))
+
+// MarkForEviction (commit): records what the new root introduced (NewRoot list) and what it made obsolete (OldRoot list)
+func (spm *storagePruningManager) MarkForEviction(oldRoot []byte, newRoot []byte, oldHashes data.ModifiedHashes, newHashes data.ModifiedHashes) (err error)
+  requires collaborators-set: spm.dbEvictionWaitingList != nil
+  requires distinct-sets: oldHashes != newHashes
+  requires roots-do-not-share-a-backing-array: base(oldRoot) != base(newRoot)
+  ensures  identical-roots-record-nothing: old(str(newRoot) == str(oldRoot)) ==> err == nil && elist(spm.dbEvictionWaitingList, anyRoot())[0] == old(elist(spm.dbEvictionWaitingList, anyRoot())[0])
+  ensures  reintroduced-hashes-in-neither-list: !old(str(newRoot) == str(oldRoot)) ==> !(has(oldHashes, anyHash()) && has(newHashes, anyHash()))
+  ensures  new-list-is-new-minus-old: !old(str(newRoot) == str(oldRoot)) ==> (has(newHashes, anyHash()) <==> old(has(newHashes, anyHash()) && !has(oldHashes, anyHash())))
+  ensures  old-list-is-old-minus-new: !old(str(newRoot) == str(oldRoot)) ==> (has(oldHashes, anyHash()) <==> old(has(oldHashes, anyHash()) && !has(newHashes, anyHash())))
+  ensures  new-list-recorded: !old(str(newRoot) == str(oldRoot)) && err == nil && len(newHashes) > 0 && len(newRoot) > 0 ==> elist(spm.dbEvictionWaitingList, rootKey(old(str(newRoot)), 1))[0] == newHashes
+  ensures  old-list-recorded: !old(str(newRoot) == str(oldRoot)) && err == nil && len(oldHashes) > 0 && len(oldRoot) > 0 ==> elist(spm.dbEvictionWaitingList, rootKey(old(str(oldRoot)), 0))[0] == oldHashes
+  ensures  other-lists-kept: anyRoot() != rootKey(old(str(newRoot)), 1) && anyRoot() != rootKey(old(str(oldRoot)), 0) ==> elist(spm.dbEvictionWaitingList, anyRoot())[0] == old(elist(spm.dbEvictionWaitingList, anyRoot())[0])
+  ensures  new-list-cell-recorded-or-untouched: elist(spm.dbEvictionWaitingList, rootKey(old(str(newRoot)), 1))[0] == newHashes || elist(spm.dbEvictionWaitingList, rootKey(old(str(newRoot)), 1))[0] == old(elist(spm.dbEvictionWaitingList, rootKey(str(newRoot), 1))[0])
+  ensures  old-list-cell-recorded-or-untouched: elist(spm.dbEvictionWaitingList, rootKey(old(str(oldRoot)), 0))[0] == oldHashes || elist(spm.dbEvictionWaitingList, rootKey(old(str(oldRoot)), 0))[0] == old(elist(spm.dbEvictionWaitingList, rootKey(str(oldRoot), 0))[0])
+  ensures  caller-roots-kept: str(oldRoot) == old(str(oldRoot)) && str(newRoot) == old(str(newRoot))
+  assigns  elems(oldRoot), elems(newRoot), mapof(oldHashes), mapof(newHashes), elems(elist(spm.dbEvictionWaitingList, rootKey(str(newRoot), 1))), elems(elist(spm.dbEvictionWaitingList, rootKey(str(oldRoot), 0)))
+@*/
+
+/*@
+// ---- composition: one commit followed by finalisation / by rollback (pruning not blocked, nothing buffered) ------------------
+// anyHash() is an arbitrary node hash; n0 its retrievability before, inNew / inOld whether the commit reported it as
+// introduced / made obsolete. anyRoot() is bound to the NewRoot key of the new root (the entry that must shield).
+
+// FINALISATION prunes the old root: nothing that the new root introduced or re-introduced is deleted.
+lemma finalisation-keeps-the-nodes-of-the-new-root
+  vars spm *storagePruningManager, oldRoot []byte, newRoot []byte, oldH data.ModifiedHashes, newH data.ModifiedHashes, tsm data.StorageManager, n0 int, inNew bool
+  hyp  spm.dbEvictionWaitingList != nil && spm.pruningBuffer != nil && tsm != nil && oldH != newH && base(oldRoot) != base(newRoot)
+  hyp  str(newRoot) != str(oldRoot) && len(newRoot) > 0 && len(oldRoot) > 0
+  hyp  not-blocked-nothing-buffered: tblocked(tsm)[0] <= 0 && bufLen(spm.pruningBuffer)[0] == 0
+  hyp  no-stale-list-for-the-old-root: isNil(elist(spm.dbEvictionWaitingList, rootKey(str(oldRoot), 0))[0])
+  hyp  n0 == tnode(tsm, anyHash())[0] && (inNew <==> has(newH, anyHash()))
+  hyp  map-length-fact: has(newH, anyHash()) ==> len(newH) > 0
+  hyp  anyRoot() == rootKey(str(newRoot), 1)
+  call err = spm.MarkForEviction(oldRoot, newRoot, oldH, newH)
+  call _ = spm.PruneTrie(oldRoot, 0, tsm)
+  concl introduced-nodes-survive: err == nil && inNew ==> tnode(tsm, anyHash())[0] == n0
+
+// ROLLBACK cancels the old root's list and prunes the new root: nothing that the new root did not introduce is deleted.
+lemma rollback-deletes-only-what-the-new-root-introduced
+  vars spm *storagePruningManager, oldRoot []byte, newRoot []byte, oldH data.ModifiedHashes, newH data.ModifiedHashes, tsm data.StorageManager, n0 int, inNew bool
+  hyp  spm.dbEvictionWaitingList != nil && spm.pruningBuffer != nil && tsm != nil && oldH != newH && base(oldRoot) != base(newRoot)
+  hyp  str(newRoot) != str(oldRoot) && len(newRoot) > 0 && len(oldRoot) > 0
+  hyp  not-blocked-nothing-buffered: tblocked(tsm)[0] <= 0 && bufLen(spm.pruningBuffer)[0] == 0
+  hyp  no-stale-list-for-the-new-root: isNil(elist(spm.dbEvictionWaitingList, rootKey(str(newRoot), 1))[0])
+  hyp  n0 == tnode(tsm, anyHash())[0] && (inNew <==> has(newH, anyHash()))
+  call err = spm.MarkForEviction(oldRoot, newRoot, oldH, newH)
+  call _ = spm.CancelPrune(oldRoot, 0, tsm)
+  call _ = spm.PruneTrie(newRoot, 1, tsm)
+  concl other-nodes-survive: err == nil && !inNew ==> tnode(tsm, anyHash())[0] == n0
+
+// WHILE BLOCKED (snapshot in progress) neither finalisation nor rollback deletes anything, and no OldRoot list is evicted.
+lemma blocked-pruning-deletes-nothing
+  vars spm *storagePruningManager, r1 []byte, r2 []byte, r3 []byte, tsm data.StorageManager, n0 int, l0 data.ModifiedHashes
+  hyp  spm.dbEvictionWaitingList != nil && spm.pruningBuffer != nil && tsm != nil
+  hyp  tblocked(tsm)[0] > 0 && n0 == tnode(tsm, anyHash())[0] && l0 == elist(spm.dbEvictionWaitingList, anyRoot())[0]
+  hyp  an-old-root-list: len(anyRoot()) > 0 && idOf(anyRoot()) == 0
+  call _ = spm.PruneTrie(r1, 0, tsm)
+  call _ = spm.CancelPrune(r2, 0, tsm)
+  call _ = spm.PruneTrie(r3, 1, tsm)
+  concl no-node-deleted: tnode(tsm, anyHash())[0] == n0
+  concl old-root-lists-kept: elist(spm.dbEvictionWaitingList, anyRoot())[0] == l0
+@*/
